@@ -737,6 +737,52 @@ def enum_small():
                 yield spec, 'D', [(p, 'GET') for p in paths], False
 
 
+def enum_disp():
+    """Exhaustive small scope for `_cp_dispatch`: every generated dispatcher form on the root (and the same form on
+    the child) x every child shape x paths that hit / miss attributes before, at and after the dispatcher."""
+    import itertools
+    disps = [{'t': 'popargs_cls', 'n': n} for n in (0, 1, 2)]
+    for n in (0, 1, 2):
+        for h in (None, ['obj', 2], ['fn', 1], ['fn', None]):
+            disps.append({'t': 'popargs_attr', 'n': n, 'h': h})
+    for pop in (0, 1, 2):
+        for ret in ('self', 'peek', ['fixed', 1], ['fixed', None]):
+            for add in ([], ['a']):
+                disps.append({'t': 'custom', 'pop': pop, 'add': add, 'ret': ret})
+    disps.append({'t': 'custom', 'pop': 1, 'add': [], 'ret': ['fixed', 1], 'exp': True})
+    disps.append({'t': 'value', 'v': 'text'})
+    shapes = list(itertools.product([None, True], [0, 2], [0, 1, 2], [False, True]))
+    paths = ['/', '/a', '/a/', '/zz', '/zz/', '/zz/a', '/zz/b', '/zz/zz', '/zz/zz/b', '/a/zz', '/a/zz/b', '/zz/a/b/',
+             '/zz/zz/zz/zz', '/b', '/zz/index', '/zz/default/x']
+
+    def node(shape, kids, disp=None, nocall=False):
+        exp, idx, dfl, call = shape
+        nd = {'exp': exp, 'call': {} if (call and not nocall) else None, 'falsy': False, 'meth': [], 'vals': [],
+              'kids': kids, 'disp': disp, 'conf': None}
+        if idx:
+            nd['meth'].append(['index', {'exp': True if idx == 2 else None}])
+        if dfl:
+            nd['meth'].append(['default', {'exp': True if dfl == 2 else None}])
+        return nd
+    plain = (None, 2, 0, False)
+    for d in disps:
+        for s1 in shapes:
+            for child_disp in (False, True):
+                spec = {'nodes': [node(plain, [['a', 1]], d),
+                                  node(s1, [['b', 2]], d if child_disp and d['t'] != 'popargs_cls' else None),
+                                  node((None, 2, 2, False), [], None, nocall=True)]}
+                yield spec, 'D', [(p, 'GET') for p in paths], False
+
+
+def _worker_enum_disp(args):
+    lo, hi = args
+    sub = common.Ctx(__import__('harness.c02', fromlist=['x']), 'thorough', 0)
+    sub.lean = _WORKER_LEAN[0]
+    import itertools
+    check_batch(sub, list(itertools.islice(enum_disp(), lo, hi)))
+    return _export(sub)
+
+
 def corpus_cases():
     d = os.path.join(common.CORPUS, PROPERTY)
     out = []
@@ -815,6 +861,11 @@ def run(ctx):
         _merge(ctx, res)
     ctx.extra['exhaustive'] = True
     ctx.extra['exhaustive_small_scope_trees'] = total
+    total_d = sum(1 for _ in enum_disp())
+    step = (total_d + 31) // 32
+    for res in common.parallel_map(_worker_enum_disp, [(lo, min(total_d, lo + step)) for lo in range(0, total_d, step)]):
+        _merge(ctx, res)
+    ctx.extra['exhaustive_dispatcher_trees'] = total_d
 
 
 def search(ctx, around=None):
